@@ -1,0 +1,88 @@
+//go:build verif
+
+package hamt
+
+import (
+	"context"
+	"encoding/hex"
+	"fmt"
+	"strings"
+
+	"github.com/ipfs/boxo/ipld/unixfs/internal"
+)
+
+// VerifDirsSetHashFunction replaces the HAMT hash function (the same package variable the
+// package's own tests override) and returns a function restoring the previous one.
+func VerifDirsSetHashFunction(f func([]byte) []byte) (restore func()) {
+	old := internal.HAMTHashFunction
+	internal.HAMTHashFunction = f
+	return func() { internal.HAMTHashFunction = old }
+}
+
+// VerifDirsDump renders the in-memory trie without changing it: children in slice (bitfield)
+// order as
+//
+//	<idx>V<stored-prefix>|<keyhex>|<cid>|<tsize>   loaded value   (prefix "-" = stored name is the bare key)
+//	<idx>v<stored-prefix>|<keyhex>|<cid>|<tsize>   unloaded value link
+//	<idx>S[...] / <idx>s[...]                      loaded / unloaded sub-shard
+func (ds *Shard) VerifDirsDump(ctx context.Context) string {
+	var sb strings.Builder
+	ds.verifDump(ctx, &sb)
+	return sb.String()
+}
+
+func (ds *Shard) verifDump(ctx context.Context, sb *strings.Builder) {
+	sb.WriteByte('[')
+	slice := 0
+	for idx := 0; idx < ds.tableSize; idx++ {
+		if !ds.childer.has(idx) {
+			continue
+		}
+		if slice >= len(ds.childer.children) {
+			fmt.Fprintf(sb, "%d!corrupt", idx)
+			break
+		}
+		if slice > 0 {
+			sb.WriteByte(' ')
+		}
+		ch := ds.childer.children[slice]
+		lnk := ds.childer.links[slice]
+		switch {
+		case ch != nil && ch.isValueNode():
+			fmt.Fprintf(sb, "%dV%s|%s|%s|%d", idx, verifPrefix(ch.val.Name, ch.key), hex.EncodeToString([]byte(ch.key)), ch.val.Cid.String(), ch.val.Size)
+		case ch != nil:
+			fmt.Fprintf(sb, "%dS", idx)
+			ch.verifDump(ctx, sb)
+		case lnk != nil && len(lnk.Name) > ds.maxpadlen:
+			key := lnk.Name[ds.maxpadlen:]
+			fmt.Fprintf(sb, "%dv%s|%s|%s|%d", idx, verifPrefix(lnk.Name, key), hex.EncodeToString([]byte(key)), lnk.Cid.String(), lnk.Size)
+		case lnk != nil:
+			fmt.Fprintf(sb, "%ds", idx)
+			nd, err := lnk.GetNode(ctx, ds.dserv)
+			if err != nil {
+				sb.WriteString("!missing")
+				break
+			}
+			sub, err := NewHamtFromDag(ds.dserv, nd)
+			if err != nil {
+				sb.WriteString("!bad")
+				break
+			}
+			sub.verifDump(ctx, sb)
+		default:
+			fmt.Fprintf(sb, "%d!nil", idx)
+		}
+		slice++
+	}
+	sb.WriteByte(']')
+}
+
+func verifPrefix(stored, key string) string {
+	if stored == key {
+		return "-"
+	}
+	if strings.HasSuffix(stored, key) {
+		return stored[:len(stored)-len(key)]
+	}
+	return "?" + hex.EncodeToString([]byte(stored))
+}
